@@ -646,7 +646,7 @@ func runIndent(r *hlib.Run) {
 	rnd := r.Rand.Fork()
 	nGen, nChunk, nMal := 9000, 300, 1200
 	if r.Thorough {
-		nGen, nChunk, nMal = 1200000, 30000, 100000
+		nGen, nChunk, nMal = 260000, 6000, 30000
 	}
 	var cases []icase
 	add := func(origin string, src []byte, tabs, spaces int) {
@@ -756,6 +756,28 @@ func runIndent(r *hlib.Run) {
 		nWhole++
 	}
 
+	// thorough: the C that the working tree's `wuffs gen` emits for base + std/ has been through
+	// dumbindent (internal/cgen), so re-indenting each generated file must change nothing
+	nGenC := 0
+	if r.Thorough {
+		if sb, err := hlib.GenStd(r.Repo); err != nil {
+			r.Note("GenStd failed, generated-C fixed-point check skipped: " + err.Error())
+		} else {
+			m, _ := filepath.Glob(filepath.Join(sb.Scratch, "gen", "c", "*", "*.c"))
+			m2, _ := filepath.Glob(filepath.Join(sb.Scratch, "gen", "c", "*.c"))
+			m = append(m, m2...)
+			sort.Strings(m)
+			for _, f := range m {
+				if b, err := os.ReadFile(f); err == nil {
+					cases = append(cases, icase{0, 2, b, "gen:" + filepath.Base(f)})
+					nGenC++
+				}
+			}
+			sb.Cleanup()
+		}
+	}
+	r.Extra("indent_generated_c_files", nGenC)
+
 	// evaluate
 	reqs := make([][][]byte, len(cases))
 	for i, c := range cases {
@@ -771,12 +793,12 @@ func runIndent(r *hlib.Run) {
 			r.Count("indent:skipped-after-hangs")
 			continue
 		}
-		whole := strings.HasPrefix(c.origin, "whole:")
+		whole := strings.HasPrefix(c.origin, "whole:") || strings.HasPrefix(c.origin, "gen:")
 		li := lexScan(c.src)
 		r.Count("indent:origin:" + strings.SplitN(c.origin, ":", 2)[0])
 		replay := c.op()
 		if whole {
-			replay = "format 0 2 <contents of " + c.origin[6:] + ">"
+			replay = "format 0 2 <contents of " + c.origin + ">"
 		}
 		if status != "ok" {
 			// the indenter must terminate (on every input: FormatBytes has no error path)
@@ -810,6 +832,11 @@ func runIndent(r *hlib.Run) {
 		}
 		r.Count("indent:lex:closed")
 		oracleCases++
+		if !whole {
+			// the hypothesis of the model's idempotence theorem (ghost Indent.lexClosed) must
+			// hold for every text this harness classifies as lexically closed
+			r.Op(fmt.Sprintf("closed %d %d %s", c.tabs, c.spaces, hlib.Hex(c.src)), "1")
+		}
 		if li.nMulti > 0 {
 			r.Count("indent:has-multiline-region")
 		}
@@ -831,6 +858,8 @@ func runIndent(r *hlib.Run) {
 		}
 		if bytes.Equal(out1, c.src) {
 			r.Count("indent:already-formatted")
+		} else if strings.HasPrefix(c.origin, "gen:") {
+			failK(r, "fixedpoint:generated-c", "C generated by the working tree's wuffs gen (which runs dumbindent) is not a fixed point of FormatBytes: "+firstDiff(out1, c.src), replay)
 		}
 		// (a) white space only
 		if !bytes.Equal(normalise(out1), normalise(c.src)) {
